@@ -28,7 +28,13 @@ func TestExec(t *testing.T) {
 	tr := drv.NewTracer(t)
 	defer tr.Close()
 	for i, s := range scheds {
-		if anomaly := runOne(tr, i, s[0]); anomaly {
+		var anomaly bool
+		if drv.Str(s[0]["ev"]) == "Script" {
+			anomaly = runScript(tr, i, s)
+		} else {
+			anomaly = runOne(tr, i, s[0])
+		}
+		if anomaly {
 			break
 		}
 	}
@@ -222,3 +228,141 @@ func runOne(tr *drv.Tracer, sid int, sc drv.Step) bool {
 	return anomaly
 }
 
+
+// runScript replays a behaviour of the timed TLA+ model (QBFTTimed) step by step on the real qbft.Run with the real
+// round timers: Tick advances the fake clock by 250 ms; Timeout(p) is only performed if p's REAL timer has fired
+// (otherwise the replay stops: the model's timer semantics and the real one differ there); a Tick while some real
+// timer is already due stops the replay as well.
+func runScript(tr *drv.Tracer, sid int, sched []drv.Step) bool {
+	sc := sched[0]
+	n := drv.Num(sc["n"])
+	inst := int64(drv.Num(sc["inst"]))
+	timerType := drv.Str(sc["timer"])
+	clk := clockwork.NewFakeClock()
+	t0 := clk.Now()
+	slotDur := 12 * time.Second
+	duty := core.NewAttesterDuty(uint64(inst))
+	genesis := t0.Add(-slotDur*time.Duration(duty.Slot) - slotDur/3)
+	c := qbftdrv.New(n, inst, nil, nil)
+	c.RealTimer = func(p int64) func(round int64) (<-chan time.Time, func()) {
+		var rt timer.RoundTimer
+		if timerType == "inc" {
+			rt = timer.NewIncreasingRoundTimerWithDutyAndClock(duty, clk)
+		} else {
+			rt = timer.NewDoubleEagerLinearRoundTimerWithDutyTimingAndClock(duty, genesis, slotDur, clk)
+		}
+		return rt.Timer
+	}
+	defer c.Stop()
+	tr.Emit(drv.Step{"ev": "Reset", "sid": sid, "n": n, "inst": inst, "byz": []int64{}, "cfail": []int64{}, "timer": timerType, "script": true})
+	now := 0
+	anomaly := false
+	var pool []M
+	started := map[int64]bool{}
+	dead := map[int64]bool{}
+	decided := map[int64]bool{}
+	delivered := map[[2]int64]bool{} // (pool index, recipient)
+	handle := func(ev drv.Step, eff qbftdrv.Effects) {
+		ev["now"] = now
+		if eff.NDec > 0 {
+			decided[int64(drv.Num(ev["p"]))] = true
+		}
+		if eff.Dead || eff.Ignored {
+			ev["was"] = ev["ev"]
+			ev["ev"] = "Anomaly"
+			anomaly = true
+		}
+		tr.Emit(qbftdrv.EffJSON(ev, eff))
+		pool = append(pool, eff.Bcasts...)
+	}
+	stop := func(why string) bool {
+		tr.Emit(drv.Step{"ev": "Stop", "why": why, "now": now})
+		return false
+	}
+	for _, st := range sched[1:] {
+		if anomaly {
+			break
+		}
+		p := int64(drv.Num(st["p"]))
+		switch drv.Str(st["ev"]) {
+		case "Silent":
+			dead[p] = true
+			tr.Emit(drv.Step{"ev": "Silent", "p": p, "now": now})
+		case "Start":
+			started[p] = true
+			handle(drv.Step{"ev": "Start", "p": p}, c.Start(p))
+		case "Input":
+			handle(drv.Step{"ev": "Input", "p": p, "v": drv.Num(st["v"])}, c.Input(p, int64(drv.Num(st["v"]))))
+		case "Crash":
+			c.Crash(p)
+			dead[p] = true
+			tr.Emit(drv.Step{"ev": "Crash", "p": p, "now": now})
+		case "Tick":
+			for q := int64(0); q < int64(n); q++ {
+				if started[q] && !dead[q] && c.TimerPeek(q) {
+					return stop("a real timer is due but the model lets time pass")
+				}
+			}
+			clk.Advance(250 * time.Millisecond)
+			now += 250
+		case "Timeout":
+			if !c.TimerDue(p) {
+				return stop("the model fires a timer the real round timer has not fired")
+			}
+			handle(drv.Step{"ev": "Timeout", "p": p}, c.Timeout(p))
+		case "DeliverSel":
+			idx := -1
+			for i := range pool {
+				if pool[i].JSON()["type"] == drv.Str(st["t"]) && pool[i].Src == int64(drv.Num(st["s"])) && pool[i].Rnd == int64(drv.Num(st["r"])) && !delivered[[2]int64{int64(i), p}] {
+					idx = i
+					break
+				}
+			}
+			if idx < 0 {
+				return stop("no such message")
+			}
+			delivered[[2]int64{int64(idx), p}] = true
+			m := pool[idx]
+			handle(drv.Step{"ev": "Deliver", "p": p, "m": m.JSON()}, c.Deliver(p, m))
+		}
+	}
+	// continuation after the scripted prefix: zero latency, deliveries before timers, until everybody decided
+	horizon := drv.Num(sc["horizon"])
+	allDone := func() bool {
+		for q := int64(0); q < int64(n); q++ {
+			if !dead[q] && started[q] && !decided[q] {
+				return false
+			}
+		}
+		return true
+	}
+	for !anomaly && now <= horizon && !allDone() {
+		for worked := true; worked && !anomaly; {
+			worked = false
+			for i := 0; i < len(pool) && !anomaly; i++ {
+				for q := int64(0); q < int64(n) && !anomaly; q++ {
+					if dead[q] || !started[q] || delivered[[2]int64{int64(i), q}] {
+						continue
+					}
+					delivered[[2]int64{int64(i), q}] = true
+					m := pool[i]
+					handle(drv.Step{"ev": "Deliver", "p": q, "m": m.JSON()}, c.Deliver(q, m))
+					worked = true
+				}
+			}
+			for q := int64(0); q < int64(n) && !anomaly; q++ {
+				if started[q] && !dead[q] && c.TimerDue(q) {
+					handle(drv.Step{"ev": "Timeout", "p": q}, c.Timeout(q))
+					worked = true
+				}
+			}
+		}
+		if allDone() {
+			break
+		}
+		clk.Advance(250 * time.Millisecond)
+		now += 250
+	}
+	tr.Emit(drv.Step{"ev": "End", "now": now})
+	return anomaly
+}
